@@ -138,8 +138,9 @@ def build_jobs(case):
 
 
 def snapshot(jobs):
-    """value + type of everything reachable from the jobs argument (to detect that the callee modified its input)"""
-    return [(type(job).__name__, [(type(o).__name__, type(o[0]).__name__, o[0], type(o[1]).__name__, o[1]) for o in job]) for job in jobs]
+    """identity + type + value of everything reachable from the jobs argument (to detect that the callee modified or re-bound it)"""
+    return [(id(job), type(job).__name__, [(id(o), type(o).__name__, type(o[0]).__name__, o[0], type(o[1]).__name__, o[1]) for o in job])
+            for job in jobs]
 
 
 def call_kwargs(case):
@@ -456,7 +457,8 @@ def judge_event_case(case, ref):
 def coq_affordable(case):
     ops = sum(len(j) for j in case["jobs"])
     top = max((o[0] for job in case["jobs"] for o in job), default=0)
-    return not case.get("nocoq") and ops <= 40 and top <= 320 and (case["max_iter"] <= 200 or ops <= 10)
+    # (with machine numbers >= 200 almost every pass draws an unused machine: cheap also for the model)
+    return not case.get("nocoq") and ops <= 40 and top <= 320 and (case["max_iter"] <= 200 or ops <= 10 or top >= 200)
 
 
 # ---------------------------------------------------------------- the check
@@ -494,7 +496,7 @@ def run_js(ctx: Ctx):
 
     # ---- class H: event-directed search; every candidate is judged in the workers
     seeds = [c for c in corpus if c.get("event")]
-    found, verdicts, stats = EV.event_search(rng, ctx.budget(9000, 150000), judge=judge_event_case, seeds=seeds)
+    found, verdicts, stats = EV.event_search(rng, ctx.budget(7000, 150000), judge=judge_event_case, seeds=seeds)
     ctx.evaluations += stats["spent"]
     ctx.count("js_family", "H:event-search candidates (oracle only)", stats["spent"])
     port_disagree = []
@@ -516,7 +518,7 @@ def run_js(ctx: Ctx):
     ev_cases = [dict(c, family="H:event-witness") for c in stats["first_witness"].values()]
     pick = list(found)
     rng.shuffle(pick)
-    ev_cases += [dict(c, family="H:event-set") for c, _ in pick[:ctx.budget(300, 3000)]]
+    ev_cases += [dict(c, family="H:event-set") for c, _ in pick[:ctx.budget(200, 3000)]]
     cases += ev_cases
 
     results = pmap(run_pair, cases)
@@ -628,7 +630,13 @@ def run_js(ctx: Ctx):
 def run(ctx: Ctx):
     ctx.rule = ("job shop: 1-4 jobs (..5 thorough) x 1-4 operations (..5) on machines 0..3 (also sparse indices, repeated machines inside a job, "
                 "zero durations) x rule in spt/lpt/mwkr/fifo/random (+upper case, unknown) x seed x local_search x max_iter in {0,1,5,30,150} "
-                "(+ on_progress stop), plus empty job list / empty job / negative machine / negative duration; "
+                "(+ on_progress stop), plus empty job list / empty job / negative machine / negative duration; round-2 families "
+                "(jobshop_families.py): I containers (tuples, lists, a non-list Sequence, mixed), L machine/duration ints >= 257 built at call time and "
+                "bools, M durations scaled by 2^31..10^18 (metamorphic: the schedule scales) / huge+tiny / integral floats / dyadic halves, O option "
+                "corners, omitted keywords and max_iter sweeps 1..40, S chains / parallel / single-machine / flow shops of 17..1025 (2049) operations "
+                "and machine numbers up to 10^6 with answers known by construction, A call sequences on one shared jobs object; H event-directed "
+                "search (jobshop_events.py: idle windows and later operations that would fit them, ties, accepted moves) whose every candidate "
+                "is run on the implementation and judged by the oracle; "
                 "non-trivial = valid input where >= 2 jobs compete for one machine; distinct = canonical JSON of the call")
     ctx.proof_step(["C18"])
     run_js(ctx)
